@@ -15,7 +15,7 @@ pub fn num_cases(ctx: &Ctx, c11: bool) -> u64 {
         (Mode::Asan | Mode::Tsan, _, true) => 200,
         (Mode::Native, Tier::Quick, false) => 50_000,
         (Mode::Native, Tier::Thorough, false) => 600_000,
-        (Mode::Native, Tier::Quick, true) => 480,
+        (Mode::Native, Tier::Quick, true) => 480 + 147,
         (Mode::Native, Tier::Thorough, true) => 6000,
     }
 }
@@ -62,6 +62,19 @@ pub fn run_c08(ctx: &mut Ctx, idx: u64) {
     let spec_b = Spec { variant: Variant::Bytewise, nfb: gen::nfb(&mut rng), ..spec_c };
     let (pc, pb) = match (build_case(&case, spec_c), build_case(&case, spec_b)) {
         (Ok(a), Ok(b)) => (a, b),
+        (a, b) if a.is_ok() != b.is_ok() => {
+            ctx.rep.violation(
+                "differential-build",
+                format!(
+                    "only one of the two variants can be built from the same valid UTF-8 patterns: char-wise {}, byte-wise {}",
+                    a.as_ref().err().map_or("ok".to_string(), |e| e.clone()),
+                    b.as_ref().err().map_or("ok".to_string(), |e| e.clone())
+                ),
+                idx,
+                J::obj().set("spec_charwise", Case::spec_j(&spec_c)).set("spec_bytewise", Case::spec_j(&spec_b)).set("case", case.to_json(40, 200)),
+            );
+            return;
+        }
         (a, b) => {
             ctx.rep.count("build_failed_on_valid_input", 1);
             ctx.rep.note(
@@ -148,6 +161,9 @@ pub fn run_c08(ctx: &mut Ctx, idx: u64) {
 
 // -------------------------------------------------------------------------------------------- C11
 
+/// 7 x 7 x 3 parameter combinations of the dense block-fill sweep
+pub const DENSE_SWEEP: usize = 147;
+
 pub fn nfb_list(ctx: &Ctx, rng: &mut Rng) -> Vec<u32> {
     if ctx.slow() {
         return vec![1, 2];
@@ -176,7 +192,13 @@ pub fn run_c11(ctx: &mut Ctx, idx: u64) {
     let mut rng = Rng::for_case(ctx.seed, "C11", idx);
     let variant = if rng.chance(1, 2) { Variant::Bytewise } else { Variant::Charwise };
     let kind = gen::any_kind(&mut rng);
-    let case = if ctx.slow() {
+    // the first DENSE_SWEEP indices walk systematically through dense two-level layouts around
+    // exact block fills (r single bytes x hub with c children x extras), see gen::dense_case
+    let case = if !ctx.slow() && (idx as usize) < DENSE_SWEEP {
+        let i = idx as usize;
+        let (r, c, e) = (250 + i % 7, 250 + (i / 7) % 7, (i / 49) % 3);
+        gen::dense_case(&mut rng, kind, r, c, e, None)
+    } else if ctx.slow() {
         gen::small_case(&mut rng, variant, kind, true)
     } else if rng.chance(3, 4) {
         let cap = match (ctx.mode, ctx.tier) {
